@@ -45,12 +45,28 @@ def gen_c01_sites():
     rows.append(('peLoopOrder', 'List String', '["init2tol", "useTolSmall", "while", "save", "discount", "computeQ", "dot", "absmax"]', rel, ln[0]))
     rel = 'include/AIToolbox/MDP/Algorithms/LinearProgramming.hpp'
     s = E.strip_comments(E.read(rel))
-    ln = _order(s, [r'lp\.row\.fill\s*\(\s*1\.0\s*/\s*S\s*\)\s*;', r'lp\.setObjective\s*\(\s*false\s*\)\s*;',
+    ln = _order(s, [r'LP\s+lp\s*\(\s*S\s*\)\s*;', r'lp\.resize\s*\(\s*S\s*\*\s*A\s*\)\s*;',
+                    r'lp\.row\.fill\s*\(\s*1\.0\s*/\s*S\s*\)\s*;', r'lp\.setObjective\s*\(\s*false\s*\)\s*;',
+                    r'for\s*\(\s*size_t\s+s\s*=\s*0\s*;\s*s\s*<\s*S\s*;\s*\+\+s\s*\)', r'lp\.setUnbounded\s*\(\s*s\s*\)\s*;',
+                    r'for\s*\(\s*size_t\s+a\s*=\s*0\s*;\s*a\s*<\s*A\s*;\s*\+\+a\s*\)',
                     r'lp\.row\s*=\s*-model\.getDiscount\(\)\s*\*\s*model\.getTransitionFunction\(a\)\.row\(s\)\s*;',
+                    r'for\s*\(\s*size_t\s+s1\s*=\s*0\s*;\s*s1\s*<\s*S\s*;\s*\+\+s1\s*\)',
                     r'lp\.row\[s1\]\s*=\s*-model\.getDiscount\(\)\s*\*\s*model\.getTransitionProbability\(s,\s*a,\s*s1\)\s*;',
                     r'lp\.row\[s\]\s*\+=\s*1\.0\s*;', r'lp\.pushRow\s*\(\s*LP::Constraint::GreaterEqual\s*,\s*rhs\s*\)\s*;',
-                    r'computeQFunction\s*\(\s*model\s*,\s*model\.getDiscount\(\)\s*\*\s*\(\*values\)\s*,\s*ir\s*\)'], rel)
-    rows.append(('lpSites', 'List String', '["objUniform", "minimise", "rowEigen", "rowGeneric", "plusOne", "GE", "assembleQ"]', rel, ln[0]))
+                    r'auto\s+values\s*=\s*lp\.solve\s*\(\s*S\s*\)\s*;', r'if\s*\(\s*!values\s*\)\s*throw\s+std::runtime_error',
+                    r'computeQFunction\s*\(\s*model\s*,\s*model\.getDiscount\(\)\s*\*\s*\(\*values\)\s*,\s*ir\s*\)',
+                    r'q\.row\(s\)\.maxCoeff\s*\(\s*&v\.actions\[s\]\s*\)\s*;'], rel)
+    # the buffer is written nowhere else: exactly one `lp.row =`, one `lp.row[s1] =`, one `lp.row[s] +=`, one fill
+    if len(re.findall(r'lp\.row\b', s)) != 4:
+        raise E.ExtractError(f'{rel}: lp.row is touched at an unexpected number of sites')
+    rows.append(('lpSites', 'List String', '["lpOfS", "resizeSA", "objUniform", "minimise", "loopS", "unbounded", "loopA", "rowEigen", "loopS1", "rowGeneric", "plusOne", "GE", "solveS", "throwIfNone", "assembleQ", "argmaxRows"]', rel, ln[0]))
+    # PolicyIteration relies on QGreedyPolicy seeing later assignments to `qfun`: QPolicyInterface keeps a reference, not a copy
+    relq = 'include/AIToolbox/MDP/Policies/QPolicyInterface.hpp'
+    sq = E.strip_comments(E.read(relq))
+    E.find1(r'const\s+QFunction\s*&\s*q_\s*;', sq, 'QPolicyInterface::q_ is a reference')
+    sq2 = E.strip_comments(E.read('src/MDP/Policies/QPolicyInterface.cpp'))
+    E.find1(r'QPolicyInterface::QPolicyInterface\s*\(\s*const\s+QFunction\s*&\s*q\s*\)\s*:\s*q_\s*\(\s*q\s*\)', sq2, 'QPolicyInterface constructor binds q_')
+    rows.append(('qPolicyHoldsReference', 'Bool', 'true', relq, 1))
     rel = 'src/MDP/Utils.cpp'
     s = E.strip_comments(E.read(rel))
     m = E.find1(r'for\s*\(\s*size_t\s+s\s*=\s*0\s*;\s*s\s*<\s*actions\.size\(\)\s*;\s*\+\+s\s*\)\s*values\(s\)\s*=\s*q\.row\(s\)\.maxCoeff\(&actions\[s\]\)\s*;', s, 'bellmanOperatorInplace loop')
@@ -64,11 +80,91 @@ def gen_c01_sites():
     rel = 'include/AIToolbox/Bandit/Policies/Utils/QGreedyPolicyWrapper.hpp'
     s = E.strip_comments(E.read(rel))
     body = s[s.index('QGreedyPolicyWrapper<V, Gen>::getPolicy'):]
-    _order(body, [r'double\s+max\s*=\s*q_\[0\]\s*;\s*unsigned\s+count\s*=\s*1\s*;', r'for\s*\(\s*size_t\s+aa\s*=\s*1\s*;',
-                  r'if\s*\(\s*checkEqualGeneral\s*\(\s*val\s*,\s*max\s*\)\s*\)\s*\+\+count\s*;', r'else\s+if\s*\(\s*val\s*>\s*max\s*\)',
-                  r'max\s*=\s*val\s*;', r'count\s*=\s*1\s*;', r'for\s*\(\s*size_t\s+aa\s*=\s*0\s*;',
-                  r'if\s*\(\s*checkEqualGeneral\s*\(\s*q_\[aa\]\s*,\s*max\s*\)\s*\)', r'p\[aa\]\s*=\s*1\.0\s*/\s*count\s*;', r'p\[aa\]\s*=\s*0\.0\s*;'], rel)
-    rows.append(('greedySites', 'List String', '["init", "scanFrom1", "tieGeneral", "greater", "setMax", "reset", "fillFrom0", "tieGeneral2", "recip", "zero"]', rel, 1))
+    body = body[:body.index('};')] if '};' in body else body
+    scan = [r'double\s+max\s*=\s*q_\[0\]\s*;\s*unsigned\s+count\s*=\s*1\s*;', r'for\s*\(\s*size_t\s+aa\s*=\s*1\s*;',
+            r'if\s*\(\s*checkEqualGeneral\s*\(\s*val\s*,\s*max\s*\)\s*\)\s*\+\+count\s*;', r'else\s+if\s*\(\s*val\s*>\s*max\s*\)',
+            r'max\s*=\s*val\s*;', r'count\s*=\s*1\s*;', r'for\s*\(\s*size_t\s+aa\s*=\s*0\s*;',
+            r'if\s*\(\s*checkEqualGeneral\s*\(\s*q_\[aa\]\s*,\s*max\s*\)\s*\)', r'p\[aa\]\s*=\s*1\.0\s*/\s*count\s*;', r'p\[aa\]\s*=\s*0\.0\s*;']
+    # repaired shape (fixes/C01-3): the true maximum first, then the count of entries equal to it, then the fill
+    fixed = [r'double\s+max\s*=\s*q_\[0\]\s*;', r'for\s*\(\s*size_t\s+aa\s*=\s*1\s*;[^;]*;\s*\+\+aa\s*\)\s*if\s*\(\s*q_\[aa\]\s*>\s*max\s*\)\s*max\s*=\s*q_\[aa\]\s*;',
+             r'unsigned\s+count\s*=\s*0\s*;', r'for\s*\(\s*size_t\s+aa\s*=\s*0\s*;[^;]*;\s*\+\+aa\s*\)\s*if\s*\(\s*checkEqualGeneral\s*\(\s*q_\[aa\]\s*,\s*max\s*\)\s*\)\s*\+\+count\s*;',
+             r'for\s*\(\s*size_t\s+aa\s*=\s*0\s*;', r'if\s*\(\s*checkEqualGeneral\s*\(\s*q_\[aa\]\s*,\s*max\s*\)\s*\)',
+             r'p\[aa\]\s*=\s*1\.0\s*/\s*count\s*;', r'p\[aa\]\s*=\s*0\.0\s*;']
+    try:
+        _order(body, scan, rel); true_max_first = False
+        # nothing else may touch max/count in the as-found shape
+        if len(re.findall(r'\bmax\s*=', body)) != 2 or len(re.findall(r'\bcount\s*=', body)) != 2 or len(re.findall(r'\+\+count', body)) != 1:
+            raise E.ExtractError(f'unexpected extra assignment to max/count in {rel} getPolicy')
+    except E.ExtractError as e1:
+        try:
+            _order(body, fixed, rel); true_max_first = True
+        except E.ExtractError:
+            raise e1
+        if 'count = 1' in body or len(re.findall(r'\bmax\s*=', body)) != 2 or len(re.findall(r'\+\+count', body)) != 1 or 'checkEqualSmall' in body:
+            raise E.ExtractError(f'repaired getPolicy shape in {rel} has extra assignments')
+    rows.append(('greedyTrueMaxFirst', 'Bool', 'true' if true_max_first else 'false', rel, 1))
+    rows.append(('greedySites', 'List String', '["init", "trueMax", "count0", "countTies", "fillFrom0", "tieGeneral2", "recip", "zero"]' if true_max_first else
+                 '["init", "scanFrom1", "tieGeneral", "greater", "setMax", "reset", "fillFrom0", "tieGeneral2", "recip", "zero"]', rel, 1))
+    # MDP::QGreedyPolicy::getPolicy: one wrapper per row of q_, written into the same row of the result
+    rel2 = 'src/MDP/Policies/QGreedyPolicy.cpp'
+    s2 = E.strip_comments(E.read(rel2))
+    b2 = s2[s2.index('QGreedyPolicy::getPolicy'):]
+    _order(b2, [r'Matrix2D\s+retval\s*\(\s*S\s*,\s*A\s*\)\s*;', r'for\s*\(\s*size_t\s+s\s*=\s*0\s*;\s*s\s*<\s*S\s*;\s*\+\+s\s*\)',
+                r'Bandit::QGreedyPolicyWrapper\s*\(\s*q_\.row\(s\)\s*,\s*bestActions_\s*,\s*rand_\s*\)\s*;', r'wrap\.getPolicy\s*\(\s*retval\.row\(s\)\s*\)\s*;',
+                r'return\s+retval\s*;'], rel2)
+    m3 = re.search(r'bestActions_\s*\(\s*getA\(\)\s*\)', s2)
+    if not m3: raise E.ExtractError('QGreedyPolicy constructor no longer sizes bestActions_ (the wrapper loop bound buffer_.size()) to A')
+    rows.append(('greedyTableSites', 'List String', '["retvalSA", "rowLoop", "wrapRow", "fillRow", "ret", "bufferIsA"]', rel2, 1))
+    # Utils/Core.hpp: the bodies of the tolerance predicates the model hard-codes (constants come from Gen/Constants)
+    rel3 = 'include/AIToolbox/Utils/Core.hpp'
+    s3 = E.strip_comments(E.read(rel3))
+    _order(s3, [r'inline\s+bool\s+checkEqualSmall\s*\(\s*const\s+double\s+a\s*,\s*const\s+double\s+b\s*\)\s*\{\s*return\s*\(\s*std::fabs\s*\(\s*a\s*-\s*b\s*\)\s*<=\s*equalToleranceSmall\s*\)\s*;\s*\}',
+                r'inline\s+bool\s+checkDifferentSmall\s*\(\s*const\s+double\s+a\s*,\s*const\s+double\s+b\s*\)\s*\{\s*return\s*!checkEqualSmall\s*\(\s*a\s*,\s*b\s*\)\s*;\s*\}',
+                r'inline\s+bool\s+checkEqualGeneral\s*\(\s*const\s+double\s+a\s*,\s*const\s+double\s+b\s*\)\s*\{\s*if\s*\(\s*checkEqualSmall\s*\(\s*a\s*,\s*b\s*\)\s*\)\s*return\s+true\s*;\s*'
+                r'return\s*\(\s*std::fabs\s*\(\s*a\s*-\s*b\s*\)\s*<=\s*std::min\s*\(\s*std::fabs\s*\(\s*a\s*\)\s*,\s*std::fabs\s*\(\s*b\s*\)\s*\)\s*\*\s*equalToleranceGeneral\s*\)\s*;\s*\}'], rel3)
+    rows.append(('toleranceSites', 'List String', '["smallAbsLe", "differentIsNotEqual", "generalSmallOrRelMin"]', rel3, 1))
+    # src/MDP/Utils.cpp: the zero-initialised tables every solver starts from, and bellmanOperator as a wrapper of the in-place form
+    rel4 = 'src/MDP/Utils.cpp'
+    s4 = E.strip_comments(E.read(rel4))
+    _order(s4, [r'QFunction\s+makeQFunction\s*\([^)]*\)\s*\{\s*auto\s+retval\s*=\s*QFunction\s*\(\s*S\s*,\s*A\s*\)\s*;\s*retval\.setZero\(\)\s*;\s*return\s+retval\s*;',
+                r'ValueFunction\s+makeValueFunction\s*\([^)]*\)\s*\{\s*auto\s+values\s*=\s*Values\s*\(\s*S\s*\)\s*;\s*values\.setZero\(\)\s*;\s*return\s*\{\s*values\s*,\s*Actions\s*\(\s*S\s*,\s*0\s*\)\s*\}\s*;',
+                r'ValueFunction\s+bellmanOperator\s*\([^)]*\)\s*\{\s*const\s+auto\s+S\s*=\s*q\.rows\(\)\s*;\s*ValueFunction\s+vf\s*\{\s*Values\s*\(\s*S\s*\)\s*,\s*Actions\s*\(\s*S\s*\)\s*\}\s*;\s*bellmanOperatorInplace\s*\(\s*q\s*,\s*&vf\s*\)\s*;\s*return\s+vf\s*;'], rel4)
+    rows.append(('makeSites', 'List String', '["makeQZero", "makeVFZeroActionsS", "bellmanOperatorWrapsInplace"]', rel4, 1))
+    # ValueIteration: the start-selection block assigns v1_ on both branches before anything reads it; setters
+    rel5 = 'include/AIToolbox/MDP/Algorithms/ValueIteration.hpp'
+    s5 = E.strip_comments(E.read(rel5))
+    b5 = s5[s5.index('ValueIteration::operator()'):]
+    _order(b5, [r'const\s+size_t\s+size\s*=\s*vParameter_\.values\.size\(\)\s*;', r'if\s*\(\s*size\s*!=\s*S\s*\)',
+                r'v1_\s*=\s*makeValueFunction\s*\(\s*S\s*\)\s*;', r'else', r'v1_\s*=\s*vParameter_\s*;'], rel5)
+    first = re.search(r'\bv1_\b', b5)
+    if not first or not re.match(r'v1_\s*=\s*makeValueFunction', b5[first.start():]):
+        raise E.ExtractError('ValueIteration::operator() touches v1_ before the start-selection block assigns it')
+    if re.search(r'\bv1_\b', b5[:b5.index('const size_t size')]):
+        raise E.ExtractError('ValueIteration::operator() reads v1_ before selecting the start')
+    rows.append(('viStartSites', 'List String', '["sizeOfParam", "neS", "defaultZero", "else", "copyParam", "v1NotReadBefore"]', rel5, 1))
+    rel6 = 'src/MDP/Algorithms/ValueIteration.cpp'
+    s6 = E.strip_comments(E.read(rel6))
+    _order(s6, [r'void\s+ValueIteration::setTolerance\s*\(\s*const\s+double\s+t\s*\)\s*\{\s*if\s*\(\s*t\s*<\s*0\.0\s*\)\s*throw\s+std::invalid_argument',
+                r'tolerance_\s*=\s*t\s*;', r'void\s+ValueIteration::setHorizon\s*\([^)]*\)\s*\{\s*horizon_\s*=\s*h\s*;',
+                r'void\s+ValueIteration::setValueFunction\s*\([^)]*\)\s*\{\s*vParameter_\s*=\s*std::move\(v\)\s*;'], rel6)
+    rel7 = 'include/AIToolbox/MDP/Algorithms/Utils/PolicyEvaluation.hpp'
+    s7 = E.strip_comments(E.read(rel7))
+    _order(s7, [r'void\s+PolicyEvaluation<M>::setTolerance\s*\(\s*const\s+double\s+t\s*\)\s*\{\s*if\s*\(\s*t\s*<\s*0\.0\s*\)\s*throw\s+std::invalid_argument',
+                r'tolerance_\s*=\s*t\s*;'], rel7)
+    rows.append(('setterSites', 'List String', '["viTolThrowsNeg", "viTolAssign", "viHorizon", "viParam", "peTolThrowsNeg", "peTolAssign"]', rel6, 1))
+    # which reward table each path hands to computeQFunction (Eigen: the model's own; generic: computeImmediateRewards, cached by PE's constructor)
+    sv = E.strip_comments(E.read('include/AIToolbox/MDP/Algorithms/ValueIteration.hpp'))
+    irpat = r'const\s+auto\s*&\s*ir\s*=\s*\[&\]\s*\{\s*if\s+constexpr\s*\(\s*IsModelEigen<M>\s*\)\s*return\s+model\.getRewardFunction\(\)\s*;\s*else\s+return\s+computeImmediateRewards\s*\(\s*model\s*\)\s*;\s*\}\s*\(\)\s*;'
+    E.find1(irpat, sv, 'ValueIteration ir selection')
+    sl = E.strip_comments(E.read('include/AIToolbox/MDP/Algorithms/LinearProgramming.hpp'))
+    E.find1(irpat, sl, 'LinearProgramming ir selection')
+    sp = E.strip_comments(E.read('include/AIToolbox/MDP/Algorithms/Utils/PolicyEvaluation.hpp'))
+    _order(sp, [r'if\s+constexpr\s*\(\s*!IsModelEigen<M>\s*\)\s*immediateRewards_\s*=\s*computeImmediateRewards\s*\(\s*m\s*\)\s*;',
+                r'const\s+auto\s+p\s*=\s*policy\.getPolicy\(\)\s*;',
+                r'if\s+constexpr\s*\(\s*IsModelEigen<M>\s*\)\s*q\s*=\s*computeQFunction\s*\(\s*model_\s*,\s*v1_\s*,\s*model_\.getRewardFunction\(\)\s*\)\s*;',
+                r'else\s+q\s*=\s*computeQFunction\s*\(\s*model_\s*,\s*v1_\s*,\s*immediateRewards_\s*\)\s*;',
+                r'for\s*\(\s*size_t\s+s\s*=\s*0\s*;\s*s\s*<\s*S\s*;\s*\+\+s\s*\)\s*v1_\(s\)\s*=\s*q\.row\(s\)\s*\*\s*p\.row\(s\)\.transpose\(\)\s*;'], 'PolicyEvaluation reward tables')
+    rows.append(('rewardTableSites', 'List String', '["viIrSelect", "lpIrSelect", "peCtorCachesIr", "pePolicyOnce", "peEigenR", "peGenericIr", "peDotAllStates"]', rel7, 1))
     rel = 'include/AIToolbox/MDP/Algorithms/PolicyIteration.hpp'
     s = E.strip_comments(E.read(rel))
     body = s[s.index('PolicyIteration::operator()'):]
